@@ -862,20 +862,52 @@ def _differs(r, ref):
 
 
 def nominal_open_ms(base):
+    """processor time of opening the unmodified base image (best of 5, warm)"""
     import pycdlib
     best = None
-    for _ in range(3):
-        t = det.real_time()
+    for _ in range(5):
+        t = _cpu()
         iso = pycdlib.PyCdlib()
         iso.open_fp(io.BytesIO(base.data))
-        dt = (det.real_time() - t) * 1000.0
+        dt = (_cpu() - t) * 1000.0
         iso.close()
         best = dt if best is None else min(best, dt)
     return round(best, 3)
 
 
+def replay(ctx):
+    """--replay PATH: re-run the one faulted image of a VIOLATION replay file (and the base image),
+    let TLC judge it, print the observation.  Does not write evidence."""
+    with open(ctx.replay) as fh:
+        rep = json.load(fh)['replay']
+    base = build_bases([rep['base']])[0]
+    _BASES[base.name] = base
+    cases = [{'id': '%s#base' % base.name, 'base': base.name, 'faults': []},
+             {'id': '%s#replay' % base.name, 'base': base.name, 'faults': rep['faults']}]
+    obs = run_cases(cases)
+    items = [{'id': c['id'], 'base': c['base'], 'faults': c['faults'], 'result': obs[c['id']]['result'],
+              'elapsed_ms': obs[c['id']]['elapsed_ms'], 'memory_error': obs[c['id']]['memory_error'],
+              'timeout': obs[c['id']]['timeout'], 'peak_kb': obs[c['id']]['peak_kb']} for c in cases]
+    fails, _ = judge.judge('Judge_Hostile', items, aux_modules={'HostileInv': inv_module(base)})
+    r = obs[cases[1]['id']]
+    print('REPLAY property=C15 base=%s faults=%s' % (base.name, json.dumps(rep['faults'])))
+    print('  observation: result=%s where=%s msg=%r processor_ms=%s peak_kb=%s timeout=%s' % (
+        r['result'], r['where'], r.get('msg', ''), r['elapsed_ms'], r['peak_kb'], r['timeout']))
+    bad = fails.get(cases[1]['id'], [])
+    for clause in bad:
+        sig = fault_sig(clause, r, rep['faults'])
+        listed = [k['id'] for k in ctx.known if checklib.sig_matches(k['signature'], sig)]
+        print('  %s signature=%s%s' % ('KNOWN-FINDING' if listed else 'VIOLATION', json.dumps(sig, sort_keys=True),
+                                     ' (%s)' % listed[0] if listed else ''))
+    if not bad:
+        print('  AllowedOutcome holds')
+    raise SystemExit(1 if bad else 0)
+
+
 def run(ctx):
     log = lambda *a: (sys.stdout.write(' '.join(str(x) for x in a) + '\n'), sys.stdout.flush())
+    if getattr(ctx, 'replay', None):
+        replay(ctx)
     t0 = det.real_time()
     only = os.environ.get('C15_BASES')     # development aid: restrict the base images
     bases = build_bases(only.split(',') if only else None)
